@@ -1,4 +1,5 @@
 import Ypv.Lemmas.Diff
+import Ypv.Lemmas.DiffKey
 /-!
 # C06 — a diff is truthful and complete; it is empty of changes iff the data are equal
 
@@ -223,6 +224,63 @@ theorem diff_exit_zero_iff_dataEq_partial (c : Cfg) (hc : NoKeySync c) (l r : No
   first
     | exact Ypv.Diff.Proofs.diff_exit_zero_iff_dataEq_partial ..
     | (apply Ypv.Diff.Proofs.diff_exit_zero_iff_dataEq_partial <;> assumption)
+
+/-! ## Document level of the identity-key mode `--aoh key` -/
+
+open Ypv.Diff.KeyDoc in
+/-- **`--aoh key` at DOCUMENT level (strict report).**  Array mode `position`, AoH mode `key`
+(`KeyPos c`), any two well-formed documents: if at every pair of record lists the comparison reaches —
+through mapping entries with the same key and list elements at the same position, to any depth — every
+left record carries the identity key and no two right records share an identity value (`idOk c l r`,
+decidable, Spec/Diff.lean; its negation is finding C06-K2's class), then the report is clean exactly when
+the documents are equal as data: mappings key by key, plain lists position by position, record lists as
+multisets of `==`-equal records.  (`key_clean_iff_msEq` threaded through the document recursion.) -/
+theorem diff_clean_iff_dataEq_key_strict (c : Cfg) (hc : KeyPos c) (l r : Node)
+    (hl : wf l = true) (hr : wf r = true) (hid : idOk c l r = true) :
+    clean (diff true c l r) = true ↔ dataEq c l r = true :=
+  Ypv.Diff.KeyDoc.diff_clean_iff_dataEq_key_strict c hc l r hl hr hid
+
+open Ypv.Diff.KeyDoc in
+/-- (`_partial`: the classes of findings C06-K1 — `hv` — and C06-K2 — `hid` — are excluded by decidable
+hypotheses; array mode `value` together with AoH mode `key`, and AoH mode `deep`, are not covered.)
+**The report of the code under `--aoh key` is clean exactly when the documents are equal as data.** -/
+theorem diff_clean_iff_dataEq_key_partial (c : Cfg) (hc : KeyPos c) (l r : Node)
+    (hl : wf l = true) (hr : wf r = true) (hid : idOk c l r = true)
+    (hv : report c l r = diff true c l r) :
+    clean (report c l r) = true ↔ dataEq c l r = true := by
+  rw [hv]; exact Ypv.Diff.KeyDoc.diff_clean_iff_dataEq_key_strict c hc l r hl hr hid
+
+open Ypv.Diff.KeyDoc in
+/-- … and `yaml-diff --aoh key` exits with 0 exactly then -/
+theorem diff_exit_zero_iff_dataEq_key_partial (c : Cfg) (hc : KeyPos c) (l r : Node)
+    (hl : wf l = true) (hr : wf r = true) (hid : idOk c l r = true)
+    (hv : report c l r = diff true c l r) :
+    exitStatus (report c l r) = 0 ↔ dataEq c l r = true :=
+  (Ypv.Diff.Proofs.exit_zero_iff_clean _).trans (diff_clean_iff_dataEq_key_partial c hc l r hl hr hid hv)
+
+/-- `{a: [{id: 1, v: x}, {id: 2}], b: [[{id: 1}]]}` against the same with the records of `a` swapped and
+then with `v` changed: the hypotheses hold (nested record lists included), equal / different as data -/
+def keyL : Node := .map none
+  [(.str ['a'], .seq none [.map none [(.str "id".toList, .scalar none (.int 1)), (.str ['v'], .scalar none (.str ['x']))],
+                          .map none [(.str "id".toList, .scalar none (.int 2))]]),
+   (.str ['b'], .seq none [.seq none [.map none [(.str "id".toList, .scalar none (.int 1))]]])]
+def keyR (v : Char) : Node := .map none
+  [(.str ['a'], .seq none [.map none [(.str "id".toList, .scalar none (.int 2))],
+                          .map none [(.str "id".toList, .scalar none (.int 1)), (.str ['v'], .scalar none (.str [v]))]]),
+   (.str ['b'], .seq none [.seq none [.map none [(.str "id".toList, .scalar none (.int 1))]]])]
+example : Ypv.Diff.KeyDoc.KeyPos ⟨.position, .key⟩ ∧ wf keyL = true ∧ wf (keyR 'x') = true ∧
+    idOk ⟨.position, .key⟩ keyL (keyR 'x') = true ∧ idOk ⟨.position, .key⟩ keyL (keyR 'y') = true ∧
+    report ⟨.position, .key⟩ keyL (keyR 'x') = diff true ⟨.position, .key⟩ keyL (keyR 'x') ∧
+    clean (report ⟨.position, .key⟩ keyL (keyR 'x')) = true ∧ dataEq ⟨.position, .key⟩ keyL (keyR 'x') = true ∧
+    clean (report ⟨.position, .key⟩ keyL (keyR 'y')) = false ∧ dataEq ⟨.position, .key⟩ keyL (keyR 'y') = false := by
+  decide +kernel
+/-- finding C06-K2 below a mapping key: `{a: [{x: 1}, {y: 2}]}` against itself — `idOk` fails (the
+second record has no identity key `x`), the report is not clean although the documents are equal -/
+example :
+    let d : Node := .map none [(.str ['a'], .seq none [.map none [(.str ['x'], .scalar none (.int 1))],
+                                                       .map none [(.str ['y'], .scalar none (.int 2))]])]
+    idOk ⟨.position, .key⟩ d d = false ∧ clean (report ⟨.position, .key⟩ d d) = false ∧
+      dataEq ⟨.position, .key⟩ d d = true := by decide +kernel
 
 /-! ## Witnesses: the hypotheses are met by non-trivial values; the findings on the model -/
 
